@@ -195,22 +195,21 @@ func NewPolynomialVector(polys []bignum.Polynomial, mapping map[int][]int) (Poly
 	}, nil
 }
 
-// IsEven returns true if all underlying polynomials are even,
-// i.e. all odd powers are zero.
+// IsEven returns true if the even-indexed coefficients (the constant included) of at least one polynomial
+// of the vector have to be evaluated, i.e. unless every polynomial is flagged odd-and-not-even.
+// A polynomial flagged both odd and even (the constructor's default) or neither is a general polynomial.
 func (p PolynomialVector) IsEven() (even bool) {
-	even = true
 	for _, poly := range p.Value {
-		even = even && poly.IsEven
+		even = even || poly.IsEven || !poly.IsOdd
 	}
 	return
 }
 
-// IsOdd returns true if all underlying polynomials are odd,
-// i.e. all even powers are zero.
+// IsOdd returns true if the odd-indexed coefficients of at least one polynomial of the vector have to be
+// evaluated, i.e. unless every polynomial is flagged even-and-not-odd.
 func (p PolynomialVector) IsOdd() (odd bool) {
-	odd = true
 	for _, poly := range p.Value {
-		odd = odd && poly.IsOdd
+		odd = odd || poly.IsOdd || !poly.IsEven
 	}
 	return
 }
